@@ -400,15 +400,21 @@ func streamFresh(c *ctx, ops []sOp) {
 	sReadCheck(c, r, ops, len(data), false, "fresh Reset")
 }
 
-func streamHistory(c *ctx, first, second []sOp) {
+// streamHistory: one BufferWriter (Reset between) and one Reader (Reset(buf) between). The first block is half
+// read, or (over) read completely and beyond its end, which leaves the reader in its EOF state before Reset.
+func streamHistory(c *ctx, first []sOp, over bool, second []sOp) {
 	w := stream.NewBufferWriter(nil)
 	sWrite(w, first)
 	d1, _ := w.Bytes()
 	d1 = cp(d1)
 	r := stream.NewReader(d1)
 	// partially consume the first block
-	if !sReadCheck2(c, r, first[:len(first)/2]) {
-		return
+	if over {
+		sReadCheck2(c, r, first)
+		_ = r.ReadUint16()
+		_ = r.ReadSlice(1)
+	} else {
+		sReadCheck2(c, r, first[:len(first)/2])
 	}
 	w.Reset()
 	sWrite(w, second)
@@ -554,17 +560,22 @@ func registerMisc() {
 			}
 			seqs(len(sOps), 0, la, func(a []int64) bool {
 				return seqs(len(sOps), 0, 2, func(b []int64) bool {
-					p := append([]int64{int64(len(a))}, a...)
-					return emit(append(p, b...)...)
+					for over := int64(0); over < 2; over++ {
+						p := append([]int64{int64(len(a)), over}, a...)
+						if !emit(append(p, b...)...) {
+							return false
+						}
+					}
+					return true
 				})
 			})
 		},
 		run: func(c *ctx) {
 			la := int(c.p[0])
-			first, second := sOpsOf(c.p[1:1+la]), sOpsOf(c.p[1+la:])
-			c.text = fmt.Sprint("stream history first=", first, " second=", second)
+			first, second := sOpsOf(c.p[2:2+la]), sOpsOf(c.p[2+la:])
+			c.text = fmt.Sprint("stream history first=", first, " readFirstBeyondEnd=", c.p[1] == 1, " second=", second)
 			c.nontrivial = true
-			streamHistory(c, first, second)
+			streamHistory(c, first, c.p[1] == 1, second)
 		}})
 }
 
